@@ -2,4 +2,4 @@
 From Coq Require Import Extraction ExtrOcamlBasic.
 From SSV Require Import Gen.ValidationConsts Validation.Model.
 Extraction "model.ml" validate run get_cs get_share err_text
-  decode_signed_ssv subnets_from_chars shared_subnets signed_node_info_post_json.
+  decode_signed_ssv subnets_from_chars shared_subnets signed_node_info_post_json decode_domain_type.
